@@ -56,9 +56,11 @@ def load_sidecar(pid):
     return importlib.import_module(f'contracts.{pid.lower()}')
 
 
-def collect_items(mod):
+def collect_items(mod, tier='thorough'):
     items = []
     for i, c in enumerate(getattr(mod, 'CONTRACTS', [])):
+        if getattr(c, 'tier', 'quick') == 'thorough' and tier != 'thorough':
+            continue
         items.append(('contract', i, c.name))
     for i, lem in enumerate(getattr(mod, 'LEMMAS', [])):
         items.append(('lemma', i, lem.name))
@@ -239,7 +241,7 @@ def main():
     os.makedirs(os.path.join(HERE, 'evidence'), exist_ok=True)
     os.makedirs(os.path.join(HERE, 'replays'), exist_ok=True)
     mod = load_sidecar(pid)
-    items = collect_items(mod)
+    items = collect_items(mod, args.tier)
     if args.only:
         items = [it for it in items if args.only in it[2]]
     from .vc import expand_scenarios
@@ -418,6 +420,11 @@ def main():
                 if rep['reach'].get(nm, 0) == 0:
                     faults.append(f'vacuous: clause {nm} was never reached')
 
+    for c in getattr(mod, 'CONTRACTS', []):
+        if getattr(c, 'tier', 'quick') == 'thorough' and args.tier != 'thorough':
+            functions.append({'name': c.name, 'target': c.target, 'class': 'THOROUGH-TIER-ONLY',
+                              'reason': 'discharged by the thorough command only (minutes of solver time per scenario); '
+                                        'not counted in this run. ' + (c.notes or '')})
     for c in getattr(mod, 'ASSUMED', []):
         functions.append({'name': c.name, 'target': c.target, 'class': 'ASSUMED-CONTRACT (' + c.klass + ')',
                           'reason': c.notes or 'contract assumed at call sites; not discharged deductively'})
